@@ -1,9 +1,9 @@
 SPECIFICATION Spec
 CONSTANTS
-  NMsgs = 4
-  Limit = 1
-  MaxFaults = 2
-  FlakyPeer = FALSE
+  NMsgs = 3
+  Limit = 2
+  MaxFaults = 1
+  FlakyPeer = TRUE
   ResetOnConnect = FALSE
 INVARIANTS Subsequence NotBoth Accounted
 PROPERTY Finishes
